@@ -160,6 +160,8 @@ func (c *Cache) refresh() error {
 		devPrio, oldPrio := devSpec.GetPriority(), oldSpec.GetPriority()
 		switch {
 		case devPrio > oldPrio:
+			// a higher priority Spec overrides any conflict among lower priority ones
+			delete(conflicts, name)
 			return false
 		case devPrio == oldPrio:
 			devPath, oldPath := devSpec.GetPath(), oldSpec.GetPath()
